@@ -77,6 +77,10 @@ pub struct VarDecl {
 
 pub type VarId = usize;
 
+/// hardware addresses that only strobe() and store() write in generated programs; ordinary
+/// statements read them into the variable `sink` alone, which no oracle compares
+pub const WRITE_ONLY_HW: [u16; 2] = [0x1b, 0x0280];
+
 #[derive(Clone, Debug, PartialEq, Eq)]
 pub enum LV {
     Var(VarId),
